@@ -28,8 +28,13 @@ ASSUMPTIONS = ['weak fit (see DESIGN section 2)',
 
 def gen(rng, tier, idx):
     wp = world.draw_world_params(rng)
-    wp['depth'] = rng.choice([2, 3, 3, 4])
+    wp['depth'] = rng.choice([2, 3, 3, 4, 4, 5])
     wp['n_query'] = rng.choice([1, 2, 3, 5, 8, 12])
+    starved = rng.random() < 0.3
+    if starved:
+        # most parents list too few markers of their own: the ancestor fallback has to walk the (reduced) tree
+        wp['m_small'] = 0.9
+        wp['m_missing'] = rng.choice([0.0, 0.3])
     W = world.make_world(wp)
     mode = rng.choice(['drop', 'drop', 'drop', 'flatten', 'flatten', 'unknown', 'flatten_drop'])
     # flatten_drop: both options at once -- the result is the flattened one, the dropped level's marker lists still
@@ -37,6 +42,10 @@ def gen(rng, tier, idx):
     level = rng.choice(W.tax.hierarchy[:-1]) if mode in ('drop', 'flatten_drop') else None
     a = common.draw_mapping_cfg(rng, W, drop_level=None, flatten=False)
     a['min_markers'] = max(1, a['min_markers'])
+    if starved:
+        a['min_markers'] = rng.choice([3, 5, 10])
+    if mode in ('drop', 'flatten_drop') and len(W.tax.hierarchy) >= 4 and rng.random() < 0.6:
+        level = rng.choice(W.tax.hierarchy[1:-2])      # a middle level whose child level is not the leaf level
     if mode == 'drop':
         a['drop_level'] = level
     elif mode == 'flatten':
